@@ -533,6 +533,11 @@ class DefaultCollectionManager(CollectionManager[K]):
         names = [child.name for child in c.child_records]
         record = ChainedCollectionRecord[K](c.parent_key, parent_collection_name, children=tuple(names))
         self._addCachedRecord(record)
+        if self._caching_context.collection_summaries is not None:
+            # The summary of a chain is derived from its children: summaries
+            # cached for this chain (and for any chain that includes it) no
+            # longer describe it.
+            self._caching_context.collection_summaries.clear()
 
     def prepend_collection_chain(
         self, parent_collection_name: str, child_collection_names: list[str]
